@@ -91,11 +91,18 @@ def run(ctx):
             except Exception as ex:      # Broken (build failure, timeout, ...) or anything else: report after all finished
                 results.append(ex)
     total_expected = 0
+    failed = []
     for job, go in zip(jobs, results):
         if isinstance(go, Exception):
-            raise go
+            failed.append((job[1], go))
+            continue
         total_expected += job[4]
         ctx.absorb(go, require_evals=job[4])
+    if failed and not ctx.violations:
+        raise failed[0][1]
+    for label, ex in failed:
+        # divergences observed in other packages stand; say which harness could not run
+        ctx.note("harness %s could not be evaluated: %s" % (label, str(ex).splitlines()[0][:300]))
     return ctx.finish(
         level="model_checking",
         rule="every case of the finite input space of each rule (receiver x sender key x wire index x payload type x context "
